@@ -633,11 +633,11 @@ impl DbInner {
 										.entry(col)
 										.or_insert_with(|| IndexedChangeSet::new(col))
 										.push_node_change(node_change);
-								} else {
-									return Err(Error::InvalidConfiguration(
-										"No entry for tree root".to_string(),
-									))
 								}
+								// else: the root was readable when the transaction was validated, so a
+								// DereferenceTree queued earlier has been processed since. This one is
+								// the no-op it would have been, had it been queued before that. Failing
+								// here would leave the entries claimed by the operations in front of it.
 							},
 						},
 					Column::Tree(_) =>
